@@ -8,4 +8,3 @@ func (ld *Loaded) asmFuncsOrNil() map[string]*AsmFunc { return nil }
 func (c *Ctx) execAsm(af *AsmFunc, fn *ssa.Function, args []Value, st *State, site ssa.Instruction) {
 	fail("asm not supported yet")
 }
-
